@@ -2469,7 +2469,10 @@ class BDD(dd._abc.BDD[_Ref]):
             v, succ, umap, level_map)
         q = self._load(
             w, succ, umap, level_map)
-        r = self.find_or_add(j, p, q)
+        # the variable order of `self` can differ
+        # from the order in the file
+        g = self.find_or_add(j, -1, 1)
+        r = self.ite(g, q, p)
         if r <= 0:
             raise AssertionError(r)
         umap[abs(u)] = r
